@@ -164,7 +164,7 @@ const readerRule = "byte strings from a frame grammar: 1..6 frames (honest heade
 func genRFrame(t *rapid.T) RFrame {
 	f := RFrame{Seed: rapid.Uint64Range(0, 1<<20).Draw(t, "seed"), MT: rapid.SampledFrom([]byte{1, 1, 2, 2, 0, 3, 255}).Draw(t, "mt")}
 	small := []int{0, 0, 1, 2, 7, 20, 300, 5000}
-	kind := rapid.SampledFrom([]string{"header", "header", "data", "data", "header-short", "header-long", "data-short", "data-long", "wrap", "wrap", "wrap", "unknown-type"}).Draw(t, "kind")
+	kind := rapid.SampledFrom([]string{"header", "header", "header", "header", "data", "data", "data", "data", "header-short", "header-long", "data-short", "data-long", "wrap", "wrap", "wrap", "unknown-type"}).Draw(t, "kind")
 	switch kind {
 	case "header", "header-short", "header-long":
 		f.T = 1
@@ -265,18 +265,25 @@ func TestReader(t *testing.T) {
 
 var propReaderHuge = &kit.Prop[ReaderCase]{
 	ID: "C19", Name: "reader-huge",
-	Rule: "explicit matrix of frames declaring 64 MiB..4 GiB (data lengths, header lengths with and without 32-bit wrap-around) with a few payload bytes present; a reader that sizes its buffer from the declaration allocates that much, so one such case runs per process (quick: one picked by the seed; thorough: one per shard) next to the cheap wrap-around shapes; same oracle as reader",
+	Rule: "explicit frames declaring 64 MiB..4 GiB (data lengths, header lengths with and without 32-bit wrap-around) with a few payload bytes present; a reader that sizes its buffer from the declaration allocates and zeroes that much, so the quick tier runs one 64..128 MiB declaration picked by the seed and the thorough tier one 2..4 GiB declaration in each of four shards, next to the cheap wrap-around shapes; same oracle as reader",
 	Run:  runReaderCase, NonTrivial: readerNonTrivial, Classes: readerClasses,
 }
 
-func hugeMatrix() (costlyCases, wrapSmall []ReaderCase) {
+// hugeMatrix: moderate (64..128 MiB) and large (2..4 GiB) declarations, and
+// wrap-around shapes whose 32-bit sum is tiny.
+func hugeMatrix() (moderate, large, wrapSmall []ReaderCase) {
 	one := func(f RFrame) ReaderCase { f.MT = 1; return ReaderCase{Frames: []RFrame{f}, Costly: true} }
-	for _, dl := range []uint32{1 << 26, 1<<31 - 1, 1 << 31, 1<<32 - 1} {
-		costlyCases = append(costlyCases, one(RFrame{T: 2, A: 0, Term: 1, B: dl, Have: 1}))
+	moderate = []ReaderCase{
+		one(RFrame{T: 2, Term: 1, B: 1 << 26, Have: 1}),
+		one(RFrame{T: 1, A: 1 << 26, B: 0, Have: 4}),
+		one(RFrame{T: 1, A: 0, B: 1 << 27, Have: 4}),
+		one(RFrame{T: 1, A: 1 << 31, B: 1<<31 + 1<<26, Have: 4}), // wraps to 64 MiB
 	}
-	for _, p := range [][2]uint32{{1 << 31, 0}, {0, 1 << 31}, {1<<31 - 1, 1 << 31}, {1<<32 - 1, 0}, {0, 1<<32 - 1}, {1 << 26, 0},
-		{1<<32 - 1, 1<<32 - 1}, {1 << 31, 3 << 30}} {
-		costlyCases = append(costlyCases, one(RFrame{T: 1, A: p[0], B: p[1], Have: 4}))
+	large = []ReaderCase{
+		one(RFrame{T: 2, Term: 1, B: 1<<32 - 1, Have: 1}),
+		one(RFrame{T: 1, A: 1 << 31, B: 0, Have: 4}),
+		one(RFrame{T: 1, A: 0, B: 1<<32 - 1, Have: 4}),
+		one(RFrame{T: 1, A: 1<<32 - 1, B: 1<<32 - 1, Have: 4}), // wraps to 2^32-2
 	}
 	honest := RFrame{T: 1, MT: 2, A: 4, B: 6, Have: 10, Seed: 3}
 	wrapSmall = []ReaderCase{
@@ -292,24 +299,20 @@ func TestReaderHuge(t *testing.T) {
 	if kit.Race() {
 		t.Skip("multi-gigabyte buffers under the race detector's shadow memory")
 	}
-	big, wrap := hugeMatrix()
+	moderate, large, wrap := hugeMatrix()
 	propReaderHuge.Enumerate(t, func(yield func(ReaderCase) bool) {
-		if kit.Shards() > 1 {
-			// 12 + 4 cases over 16 shards: one case, one huge buffer per process
-			for _, c := range append(big, wrap...) {
-				if !yield(c) {
-					return
-				}
+		var cases []ReaderCase
+		if kit.Thorough() && kit.Shards() >= 8 {
+			// Enumerate deals the cases round-robin: shards 0..3 get one large
+			// declaration each, shards 4..7 one wrap-around shape each
+			cases = append(large, wrap...)
+		} else {
+			cases = []ReaderCase{moderate[int(uint64(kit.Seed())%uint64(len(moderate)))]}
+			if !wrapAllocates() { // otherwise the probe was this process's wrap-around input
+				cases = append(cases, wrap...)
 			}
-			return
 		}
-		if !yield(big[int(uint64(kit.Seed())%uint64(len(big)))]) {
-			return
-		}
-		if wrapAllocates() {
-			return // the probe was this process's wrap-around input
-		}
-		for _, c := range wrap {
+		for _, c := range cases {
 			if !yield(c) {
 				return
 			}
@@ -358,8 +361,8 @@ func fuzzSeeds() [][]byte {
 		encHeader(1, "abcdefgh", "", ""),
 		append(encHeader(1, "abcdefgh", "k", "v")[:18], 'k'),
 	}
-	big, wrap := hugeMatrix()
-	for _, c := range append(wrap, big[0], big[4], big[10]) {
+	moderate, large, wrap := hugeMatrix()
+	for _, c := range append(wrap, moderate[0], moderate[3], large[0], large[3]) {
 		seeds = append(seeds, c.bytes()) // skipped by the guard, kept as mutation material
 	}
 	seeds = append(seeds, ReaderCase{Frames: []RFrame{{T: 1, MT: 1, A: 1 << 20, B: 0, Have: 9}}}.bytes())
